@@ -10,7 +10,7 @@ import vp
 HOSTILE = ["plain", "-x", "--flag", "--env", "--rm", "--", "-", "with space", "a=b", "=lead", "trail=", "q\"uote", "single'q", "$HOME", "`id`", "café", "日本語", "", " ", "a;b", "*",
            "--name=evil", "--entrypoint", "x y z", "\ttab", "new\nline", "--publish=1:1"]
 KEYS = ["A", "PATH", "lower", "with space", "-dash", "--double", "k.ey", "café", "K_1", "0"]
-BUILDPACKS = ["heroku/nodejs", "heroku/procfile@1.2.3", "urn:cnb:registry:x/y", "/abs/path/bp", "rel/bp.cnb", "-weird", "--also", "docker://img/bp:1", "with space/bp", "a=b", "dup/bp", "dup/bp"]
+BUILDPACKS = ["./fixtures/app", "../crate/fixtures", "./does/not/exist", "fixtures/app", ".", "heroku/nodejs", "heroku/procfile@1.2.3", "urn:cnb:registry:x/y", "/abs/path/bp", "rel/bp.cnb", "-weird", "--also", "docker://img/bp:1", "with space/bp", "a=b", "dup/bp", "dup/bp"]
 FIXTURE = {"fixtures/app/index.txt": "hello", "fixtures/app/sub/file": "x", "fixtures/app/keep": "k", "fixtures/other app/f": "other", "Cargo.toml": "[package]\nname = \"fixturecrate\"\nversion = \"0.0.0\"\n"}
 OWN = re.compile(r"^libcnbtest_[a-z]{12}$")
 
@@ -25,7 +25,8 @@ def gen_case(r, idx, env):
         benv[r.choice(KEYS)] = r.choice(HOSTILE)
     pre = None
     if r.random() < 0.5:
-        pre = {"add": [[r.choice(["added.txt", "sub/new/deep.txt", "index.txt"]), r.choice(HOSTILE)] for _ in range(r.randint(0, 2))], "remove": r.sample(["index.txt", "keep", "nope"], r.randint(0, 2))}
+        pre = {"add": [[r.choice(["added.txt", "sub/new/deep.txt", "index.txt"]), r.choice(HOSTILE)] for _ in range(r.randint(0, 2))], "remove": r.sample(["index.txt", "keep", "nope"], r.randint(0, 2)),
+               "append": [["log.txt", "line\n"]] if r.random() < 0.6 else []}
     c["build"] = {"builder": r.choice(["heroku/builder:24", "-b", "builder with space", "--builder"]), "app_dir": app, "buildpacks": bps, "env": [[k, v] for k, v in benv.items()],
                   "preprocessor": pre, "expected": "success"}
     cenv = {}
@@ -37,6 +38,7 @@ def gen_case(r, idx, env):
         mounts[r.choice(["/src/a", "/host path/with space", "rel/src", "/src=eq", "/-dash"])] = r.choice(["/target", "/t space", "/t=eq", "/-t"])
     c["container"] = {"entrypoint": None if r.random() < 0.4 else r.choice(HOSTILE), "command": cmd, "env": [[k, v] for k, v in cenv.items()],
                       "ports": sorted(set(r.choice([80, 8080, 1, 65535, 3000]) for _ in range(r.choice([0, 1, 2, 4])))), "mounts": [[s, t] for s, t in mounts.items()]}
+    c["rebuild"] = r.random() < 0.4
     c["shell"] = r.choice(HOSTILE)
     c["exec"] = r.choice(HOSTILE)
     return c
@@ -64,6 +66,8 @@ def apply_pre(digest, pre):
         for i in range(1, len(parts)):
             d["/".join(parts[:i]) + "/"] = ""
         d[rel] = content.encode().hex()
+    for rel, text in pre.get("append", []):
+        d[rel] = (bytes.fromhex(d.get(rel, "")) + text.encode()).hex()
     for rel in pre["remove"]:
         d.pop(rel, None)
     return sorted([k, v] for k, v in d.items())
@@ -72,7 +76,8 @@ def apply_pre(digest, pre):
 def run_case(env, c, sh):
     scenario = {"builds": [{"config": c["build"], "body": [{"op": "run_shell_command", "command": c["shell"]},
                                                             {"op": "start_container", "config": c["container"], "body": [{"op": "shell_exec", "command": c["exec"]}] +
-                                                             ([{"op": "address_for_port", "port": c["container"]["ports"][0]}] if c["container"]["ports"] else [])}]}]}
+                                                             ([{"op": "address_for_port", "port": c["container"]["ports"][0]}] if c["container"]["ports"] else [])}] +
+                            ([{"op": "rebuild", "reuse_config": True, "config": c["build"], "body": []}] if c.get("rebuild") else [])}]}
     app_abs = os.path.normpath(c["build"]["app_dir"] if os.path.isabs(c["build"]["app_dir"]) else os.path.join(env.crate, c["build"]["app_dir"]))
     before = fixture_digest(app_abs)
     rc, err, log, left = env.run(scenario)
@@ -91,11 +96,22 @@ def run_case(env, c, sh):
         sh.violation("ambiguous-argv", "%s: a command line does not parse under the CLI's own grammar: %s; commands %r" % (what, e, [x["argv"] for x in log]), case)
         return
     builds = [x for x in cmds if x["kind"] == "pack build"]
-    if len(builds) != 1:
+    if len(builds) != (2 if c.get("rebuild") else 1):
         sh.violation("pack-build-count", "%s: %d pack build invocations" % (what, len(builds)), case)
         return
-    b = builds[0]
     cfg = c["build"]
+    if c.get("rebuild"):
+        # the rebuild (with the first build's own configuration) must look exactly like the first build: same image, same options,
+        # and - with a preprocessor - a fresh private copy with the edits applied once
+        b2, raw2 = builds[1], log[builds[1]["seq"]]
+        if (b2["image"], b2["builder"], b2["buildpacks"], sorted(b2["env"])) != (builds[0]["image"], builds[0]["builder"], builds[0]["buildpacks"], sorted(builds[0]["env"])):
+            sh.violation("rebuild:options", "%s: the rebuild's pack build differs from the first: %r vs %r" % (what, raw2["argv"], log[builds[0]["seq"]]["argv"]), case)
+            return
+        want2 = before if cfg["preprocessor"] is None else apply_pre(before, cfg["preprocessor"])
+        if sorted(raw2["path_digest"]) != sorted(want2):
+            sh.violation("rebuild:path-content", "%s: on rebuild pack saw %r, expected %r" % (what, sorted(raw2["path_digest"])[:6], sorted(want2)[:6]), case)
+            return
+    b = builds[0]
     raw = log[b["seq"]]
     if not OWN.match(b["image"]):
         sh.violation("image-name", "%s: image name %r" % (what, b["image"]), case)
